@@ -360,3 +360,106 @@ DT_RULE = ('the float domain is entered once and never left: no real-valued resu
            'keeps the caller\'s dtype (integer-typed input is ordinary: Weaver(None, y) builds an integer abscissa itself); decided on the element-type '
            'shadow of the evaluated function (dtypes.py): buffers created with dtype=float / zeros / linspace are float, asarray / copy / tile / '
            'zeros_like / v.dtype inherit')
+
+
+# --------------------------------------------------------------------------- neighbour indices as counts (assume-guarantee with C10)
+LOWER_SCAN = SAU + 'find_closest_lower_equal_element_indices_to_values'
+HIGHER_SCAN = SAU + 'find_closest_higher_equal_element_indices_to_values'
+
+
+def count_semantics(v):
+    """Rewrite neighbour indices into one vocabulary, so that a scan call and a binary search denote the same thing when they are the same:
+
+        cle(X, v) = #{j : X[j] <= v}        clt(X, v) = #{j : X[j] < v}                       (X sorted ascending)
+        numpy.searchsorted(X, v, side='right') = cle,  side='left' = clt
+        find_closest_lower_equal(X, [v], fill)[0]  = max(cle - 1, 0) with filling, cle - 1 without    (what C10.4 proves of the scan)
+        find_closest_higher_equal(X, [v], fill)[0] = min(clt, len(X) - 1) with filling, clt without
+        int(<count>) = <count>
+
+    Only single-query calls are rewritten; anything else is left as it is."""
+    from ..values import minmax_atom
+
+    def arr_ref(X):
+        if isinstance(X, Num) and X.length is not None:
+            for a in X.r.atoms():
+                if sym.ATOMS.head(a) == 'el':
+                    return sym.ATOMS.args(a)[0], X.length
+        return None, None
+
+    def needle(q):
+        if isinstance(q, Tup) and len(q.items) == 1:
+            q = q.items[0]
+        if isinstance(q, Num) and q.length is None:
+            return q.r
+        return None
+
+    def count_of(t: Term):
+        """(atom Rat, kind) for a searchsorted term; None otherwise"""
+        if t.head != 'lib:numpy.searchsorted':
+            return None
+        X = t.kw('a') if t.kw('a') is not None else (t.args[0] if t.args else None)
+        q = t.kw('v') if t.kw('v') is not None else (t.args[1] if len(t.args) > 1 else None)
+        side = t.kw('side') if t.kw('side') is not None else (t.args[2] if len(t.args) > 2 else Const('left'))
+        ref, _ = arr_ref(X)
+        nd = needle(q)
+        if ref is None or nd is None or not isinstance(side, Const) or side.v not in ('left', 'right') or t.kw('sorter') is not None:
+            return None
+        return sym.A('cle' if side.v == 'right' else 'clt', ref, nd)
+
+    def scan_of(t: Term):
+        if t.head not in ('call:' + LOWER_SCAN, 'call:' + HIGHER_SCAN):
+            return None
+        X, q, fill = t.kw('x'), t.kw('lookup'), t.kw('fill_not_valid')
+        ref, ln = arr_ref(X)
+        nd = needle(q)
+        if ref is None or nd is None or not isinstance(fill, Const) or not isinstance(fill.v, bool):
+            return None
+        if t.head == 'call:' + LOWER_SCAN:
+            c = sym.A('cle', ref, nd) - C(1)
+            return minmax_atom('max', [c, C(0)]) if fill.v else c
+        c = sym.A('clt', ref, nd)
+        return minmax_atom('min', [c, ln - C(1)]) if fill.v else c
+    memo = {}
+
+    def atom_img(a):
+        if a in memo:
+            return memo[a]
+        head, args = sym.ATOMS.head(a), sym.ATOMS.args(a)
+        out = None
+        if head == 'val' and isinstance(args[0], Ref) and isinstance(args[0].term, Term):
+            out = count_of(args[0].term)
+        elif head == 'el' and isinstance(args[0], Ref) and isinstance(args[0].term, Term) and isinstance(args[1], Rat) and args[1] == C(0):
+            out = scan_of(args[0].term)
+        elif head == 'Int' and isinstance(args[0], Rat):
+            inner = rat_img(args[0])
+            ia = list(inner.atoms())
+            if ia and all(sym.ATOMS.head(x_) in ('cle', 'clt', 'Len', 'max2', 'min2') or sym.ATOMS.head(x_) == 'sym' for x_ in ia) and all(
+                    c_.denominator == 1 for c_ in inner.n.t.values()) and inner.d.t == {(): 1} and any(sym.ATOMS.head(x_) in ('cle', 'clt') for x_ in sym.all_atoms(inner)):
+                out = inner
+            elif not (inner == args[0]):
+                out = sym.make_atom('Int', inner)
+        if out is None:
+            nargs = tuple(rat_img(x_) if isinstance(x_, Rat) else x_ for x_ in args)
+            out = sym.make_atom(head, *nargs) if any(isinstance(x_, Rat) and not (x_ == y_) for x_, y_ in zip(nargs, args)) else Rat.atom(a)
+        memo[a] = out
+        return out
+
+    def rat_img(r: Rat) -> Rat:
+        mp = {}
+        for a in r.atoms():
+            img = atom_img(a)
+            if not (img == Rat.atom(a)):
+                mp[a] = img
+        return sym.subst(r, mp) if mp else r
+
+    def val_img(x):
+        if isinstance(x, Num):
+            return Num(rat_img(x.r), None if x.length is None else rat_img(x.length), x.kind)
+        if isinstance(x, Tup):
+            return Tup([val_img(i) for i in x.items], x.kind)
+        if isinstance(x, Gam):
+            return Gam(x.pred, val_img(x.a), val_img(x.b))
+        if isinstance(x, Term) and x.kind in ('scalar', 'int') and count_of(x) is not None:
+            return Num(count_of(x))
+        return x
+    return val_img(v)
